@@ -553,14 +553,15 @@ class Gen:
             self.hook_names = [f"H{i}" for i in range(1, r.randint(2, 3) + 1)]
         for n in self.names[1:]:
             if self.p("params"):
-                k = r.randint(1, 2)
+                k = r.randint(1, 3 if self.p("long_params") else 2)
                 ps = []
-                pool = ["p", "q"] + (["a"] if self.p("shadow") else [])
+                pool = ["p", "q", "r2"] + (["a"] if self.p("shadow") else [])
                 r.shuffle(pool)
                 for j in range(k):
                     default = None
                     if j > 0 and r.random() < 0.6:
-                        default = r.choice([str(r.randint(0, 5)), f"{ps[0][0]} * 2", "a + 1"])
+                        # a default may use ANY earlier parameter, also one that itself took its default
+                        default = r.choice([str(r.randint(0, 5)), f"{ps[0][0]} * 2", "a + 1", f"{ps[j - 1][0]} + 1", f"{ps[0][0]} + {ps[j - 1][0]}"])
                     elif j == 0 and r.random() < 0.2:
                         default = str(r.randint(0, 5))
                     if ps and ps[-1][1] is not None and default is None:
